@@ -10,9 +10,11 @@ LSB (PT_GNU_EH_FRAME, PT_GNU_RELRO) and what the Linux kernel / glibc do with th
 Every rule has its own narrow key (the part before the first ':' names the rule). The monitor reads
 only the file; it does not know the link options. RELRO rules therefore classify sections by what
 any linker must agree on: the sections named in MUST_RELRO have to be inside the RELRO segment when
-there is one, the writable sections named in NEVER_RELRO (and every other writable section that is
-not linker-synthesised) must not be protected by it, linker-synthesised sections (.got, .got.plt,
-.dynamic, .relro_padding, TLS data ...) may be on either side.
+there is one (and inside what glibc's `_dl_protect_relro` actually protects with 4 KiB pages:
+[p_vaddr rounded down, p_vaddr + p_memsz rounded down)); a writable section that is neither in
+MUST_RELRO nor linker-synthesised / TLS (EITHER_RELRO: .got, .got.plt, .dynamic, .relro_padding,
+.tdata, .tbss ...) is ordinary data and must not fall into the protected range for any page size
+from 4 KiB up to the largest PT_LOAD alignment; EITHER_RELRO sections may be on either side.
 
 Rules, for ET_EXEC / ET_DYN (R = also for ET_REL, A = advisory, only with strict=True):
   ehdr-*       R  header fields valid; tables inside the file
